@@ -250,7 +250,7 @@ def coverage_summary(cov):
             _, stmts, _, missing, _ = cov.analysis2(f)
             if stmts:
                 out[os.path.basename(f)] = {"statements": len(stmts), "executed": len(stmts) - len(missing),
-                                            "missing_lines": missing[:40]}
+                                            "missing_lines": missing}
     except Exception as e:  # noqa: BLE001
         out["error"] = repr(e)
     return out
